@@ -12,7 +12,7 @@ import (
 func init() {
 	register("C06", &ruleSet{
 		run:    runC06,
-		floors: map[string]int{"O1": 3, "O2": 1, "O3": 4, "O4": 3},
+		floors: map[string]int{"O1": 3, "O2": 1, "O3": 4, "O4": 3, "O5": 2},
 		explain: "Decides the direction clauses of the loss response (real arithmetic; the exact AIMD value and the bounded-steps convergence are declined: the first would be a " +
 			"frozen term match, the second is numeric): (O1) drop never raises: in AIMD, Vegas and Gradient, on every path on which the drop flag's true edge was taken and the " +
 			"estimate is stored, the stored value is proved <= max(old estimate, the algorithm's own lower clamp: 1 / minLimit / queue allowance); AIMD additionally makes " +
@@ -29,6 +29,8 @@ func runC06(p *Prog, l *Ledger) {
 	l.NotCovered = []string{"the exact AIMD value max(1, min(limit-1, floor(limit x ratio)))", "reaching the floor within a bounded number of samples", "user-supplied decrease functions", "Gradient2 (not loss-sensitive by design)"}
 	l.Assume("valid configuration: backoff ratio in (0,1], smoothing in (0,1], minLimit <= maxLimit; inductive hypothesis on the old estimate")
 
+	l.Rule("O5", "a drop reaches the update (decided by the C15/O4 rule on the same tree): the probe branch, which returns before the loss response, re-arms its counter every time it fires - a probe that stays due swallows every later sample, drops included")
+	importObligations(p, l, "C15", "O5", func(o *Obligation) bool { return o.Rule == "O4" })
 	l.Rule("O4", "the update is atomic: every read of the estimate that feeds a stored estimate happens in the same exclusive critical section as the store")
 	locksC06 := p.Locksets()
 	for _, af := range algoFuncs(p, l) {
